@@ -427,6 +427,15 @@ def main(tier, seed):
     states += rep.coverage.pop("states", 0)
     rep.coverage.pop("transitions", 0)
     ncmp += rep.coverage.pop("traces_validated_against_impl", 0)
+    # every indexing / slicing / string-function case of Strings.tla (haystacks, needles, indices and ranges around every byte and character
+    # boundary of 1- to 4-byte characters) on the OPTIMISED build: the byte-level fast paths are where an out-of-boundary slice becomes a host panic
+    # (C13 runs the same cases on the checked build)
+    from checks import c13
+    scases, sstates, _ = c13.collect_cases(rep, tier, random.Random(seed + 6), limit=15000 if tier == "quick" else None, tag="c02str")
+    nstr = c13.replay_cases(rep, [b for b in binaries if b[0] == "release"] or binaries[-1:], scases)
+    ncmp += nstr
+    states += sstates
+    rep.coverage["string_boundary_cases"] = nstr
     lim_i, nest_i, st_i = stack_budget(rep, True, tier)       # the ideal: both budgets respected (invariant SlotsRespected)
     lim, nest, st_a = stack_budget(rep, False, tier)          # as built: predicted outcomes incl. the recorded overrun
     nlim = run_limits(rep, binaries, lim, nest)
